@@ -780,7 +780,7 @@ class Rechunk(ArrayExpr):
                 self._chunks,
                 self.threshold,
                 self.block_size_limit,
-                self.balance or self.array.balance,
+                self.balance,  # the inner rechunk is bypassed: only the outer target matters
                 self.method,
             )
 
@@ -944,7 +944,9 @@ class Rechunk(ArrayExpr):
 
         transpose = self.array
         axes = transpose.axes
-        chunks = self._chunks
+        # self.chunks is the settled target (balance already applied), so the
+        # inner rechunk takes it verbatim with balance off.
+        chunks = self.chunks
 
         if isinstance(chunks, tuple):
             # Map output chunks back through transpose axes to get input chunks
@@ -974,7 +976,8 @@ class Rechunk(ArrayExpr):
 
         elemwise = self.array
         out_ind = elemwise.out_ind
-        chunks = self._chunks
+        # the settled target (balance already applied), as in the other pushdowns
+        chunks = self.chunks
 
         # Convert dict chunks to tuple for positional indexing
         if isinstance(chunks, dict):
